@@ -63,6 +63,19 @@ static void family(rng& g, bool thorough, bool dists)
         c.plan = make_plan(g, 89);
         run_vegas<T>(c, make_engine(g, 211), pdf, iters, T(1.5));   // later iterations use adapted grids
     }
+    // a valid, extremely non-uniform grid in eight dimensions: points whose weight underflows to zero are still handed to the integrand
+    {
+        hep::vegas_pdf<T> pdf(8, 2);
+        for (std::size_t j = 0; j != 8; ++j) pdf.set_bin_left(j, 1, std::ldexp(T(1), -(std::numeric_limits<T>::digits + 20)));
+        std::vector<std::uint64_t> sc;
+        for (int call = 0; call != 15; ++call)
+            for (int j = 0; j != 8; ++j) sc.push_back(call % 3 == 0 ? dyadic(1, 2) : (g.below(2) ? dyadic(1, 2) : dyadic(3, 2)));
+        call_ctx<T> c;
+        c.cfg.kind = "vegas";
+        c.dists = dists;
+        c.plan = make_plan(g, 31);
+        run_vegas<T>(c, script_engine(script_registry::add(sc)), pdf, std::vector<std::size_t>{15}, T(1.5));
+    }
     for (int fam = 0; fam != 4; ++fam)
     {
         std::vector<T> w = fam == 0 ? std::vector<T>{T(2), T(1), T(1), T(0)}
